@@ -691,3 +691,26 @@ def stored_record_required_fields(ctx, adt):
         if n == "serde::de::Error::missing_field" or not (t.get("dty") or "").startswith("core::result::Result<core::option::Option<"):
             req.add(name)
     return req
+
+
+def option_field_none_edges(f, adt, field):
+    """CFG edges of f on which `<adt>.<field>` (an Option) is known to be None: the not-Some successors of a
+    discriminant switch on it, the false edges of is_some(), the true edges of is_none()."""
+    none_edges = set()
+    for b, bb in enumerate(f.bbs):
+        for st in bb["s"]:
+            if st["k"] == "a" and st["r"]["k"] == "disc":
+                q = st["r"]["p"]
+                if q[1] and isinstance(q[1][-1], dict) and q[1][-1].get("a") == adt and q[1][-1].get("n") == field and not st["d"][1]:
+                    t = bb["t"]
+                    if t["k"] == "sw" and vf.op_place(t["o"]) and vf.op_place(t["o"])[0] == st["d"][0]:
+                        some = {tb for v, tb in t["t"] if v == "1"}
+                        for s_ in f.succ(b):
+                            if s_ not in some:
+                                none_edges.add((b, s_))
+    for b, t in f.calls():
+        fnm = t.get("f") or ""
+        if fnm.endswith(("Option::<T>::is_some", "Option::<T>::is_none")) and vf.has_field(vf.producers(f, t["a"][0]) | vf.origins(f, t["a"][0]), adt, field):
+            g_ = cfg.call_guard(f, b)
+            none_edges |= (g_.fail if fnm.endswith("is_some") else g_.ok)
+    return none_edges
